@@ -106,7 +106,11 @@ func dhcpAlphabet() []dEvent {
 		// a REQUEST that names another server, carries the client's address in ciaddr and has no requested-address option
 		dEvent{Kind: "request", K: 0, Req: "otherrenew"},
 		// c4: the hardware address of c1 with another client identifier
-		dEvent{Kind: "discover", K: 3, Req: "none"}, dEvent{Kind: "request", K: 3, Req: "last"}, dEvent{Kind: "request", K: 3, Req: "rebootother"})
+		dEvent{Kind: "discover", K: 3, Req: "none"}, dEvent{Kind: "request", K: 3, Req: "last"}, dEvent{Kind: "request", K: 3, Req: "rebootother"},
+		// INIT-REBOOT of c2 for the address acknowledged to another client (refused, but it touches the session's host entry)
+		dEvent{Kind: "request", K: 1, Req: "rebootother"},
+		// c2 selects again the last offer it ever received (old xid), e.g. after a NAK
+		dEvent{Kind: "request", K: 1, Req: "replay"})
 	return a
 }
 
@@ -119,16 +123,18 @@ type dAck struct {
 }
 
 type dObserver struct {
-	maybe    map[int]dAck       // client -> binding whose fate the statement does not decide (the client selected another server)
-	lease    map[int]dAck       // client -> last acknowledged address still within its lease time (a NAK does not end the binding held by the server)
-	acks     map[int]dAck       // client -> acknowledged address
-	offer    map[int]netip.Addr // client -> address offered in the open transaction
-	offerXID map[int]uint32
-	nextXID  uint32
+	maybe        map[int]dAck       // client -> binding whose fate the statement does not decide (the client selected another server)
+	lease        map[int]dAck       // client -> last acknowledged address still within its lease time (a NAK does not end the binding held by the server)
+	acks         map[int]dAck       // client -> acknowledged address
+	offer        map[int]netip.Addr // client -> address offered in the open transaction
+	offerXID     map[int]uint32
+	everOffer    map[int]netip.Addr // client -> the last address ever offered to it (kept across NAKs: a client may replay an old selection)
+	everOfferXID map[int]uint32
+	nextXID      uint32
 }
 
 func newObserver() *dObserver {
-	return &dObserver{maybe: map[int]dAck{}, lease: map[int]dAck{}, acks: map[int]dAck{}, offer: map[int]netip.Addr{}, offerXID: map[int]uint32{}, nextXID: 0x1000}
+	return &dObserver{maybe: map[int]dAck{}, lease: map[int]dAck{}, acks: map[int]dAck{}, offer: map[int]netip.Addr{}, offerXID: map[int]uint32{}, everOffer: map[int]netip.Addr{}, everOfferXID: map[int]uint32{}, nextXID: 0x1000}
 }
 
 func (o *dObserver) expire(now int64) {
@@ -396,6 +402,11 @@ func runDHCP(alpha []dEvent, hist []int, o dhcpOpts) *dhcpResult {
 					switch ev.Req {
 					case "last":
 						deliver(dhcpFrame(ev.K, 3, reqXID, zero, bc, netip.Addr{}, [][2][]byte{{{50}, last.AsSlice()}, {{54}, dHost.AsSlice()}}))
+					case "replay": // the selection of the last offer this client ever received, whatever happened since
+						if a, ok := obs.everOffer[ev.K]; ok {
+							last, reqXID = a, obs.everOfferXID[ev.K]
+						}
+						deliver(dhcpFrame(ev.K, 3, reqXID, zero, bc, netip.Addr{}, [][2][]byte{{{50}, last.AsSlice()}, {{54}, dHost.AsSlice()}}))
 					case "stale":
 						reqXID = 0xdead
 						deliver(dhcpFrame(ev.K, 3, reqXID, zero, bc, netip.Addr{}, [][2][]byte{{{50}, last.AsSlice()}, {{54}, dHost.AsSlice()}}))
@@ -542,9 +553,15 @@ func runDHCP(alpha []dEvent, hist []int, o dhcpOpts) *dhcpResult {
 					if y != k && ya.ip == a {
 						sig := strings.ToLower(kind) + "-of-acknowledged-address"
 						note := ""
-						if s.IsCaptured(dClients[y]) != ya.captured {
+						stillInTable := false // does the server's own lease table still hold the owner's binding?
+						for _, l := range h.VerifLeases() {
+							if bytes.Equal(l.ClientID, dID(y)) && l.IP == a && (l.State == dhcp4.StateAllocated || l.State == dhcp4.StateDiscover) {
+								stillInTable = true
+							}
+						}
+						if s.IsCaptured(dClients[y]) != ya.captured && !stillInTable {
 							// the owner was moved to the other subnet (captured / released, or its capture flag was lost with
-							// its purged session entry) after the acknowledgement
+							// its purged session entry) after the acknowledgement and the server has dropped its binding
 							sig += ":owner-changed-subnet"
 							note = fmt.Sprintf(" (c%d was captured=%v when it was acknowledged and is captured=%v now)", y+1, ya.captured, !ya.captured)
 						}
@@ -606,6 +623,9 @@ func runDHCP(alpha []dEvent, hist []int, o dhcpOpts) *dhcpResult {
 					off, hasOff := obs.offer[k]
 					cur, hasCur := obs.lease[k]
 					okOffer := hasOff && off == a && obs.offerXID[k] == reqXID
+					if ea, ok := obs.everOffer[k]; ok && ea == a && obs.everOfferXID[k] == reqXID {
+						okOffer = true // the selection replays the transaction in which this address was offered
+					}
 					okLease := hasCur && cur.ip == a
 					if !okOffer && !okLease {
 						fail("segregate", "ack-unfounded", fmt.Sprintf("ACK of %v to c%d confirms neither the address offered in this transaction (%v) nor its current lease (%v)", a, k+1, off, cur.ip))
@@ -621,6 +641,7 @@ func runDHCP(alpha []dEvent, hist []int, o dhcpOpts) *dhcpResult {
 				} else {
 					obs.offer[k] = a
 					obs.offerXID[k] = reqXID
+					obs.everOffer[k], obs.everOfferXID[k] = a, reqXID
 				}
 			}
 			if ev.Kind == "request" && (ev.Req == "otherserver" || ev.Req == "otherrenew") {
@@ -724,10 +745,11 @@ func dhcpSeeds(alpha []dEvent) [][]int {
 		{d1, find("discover", 1, "other")},     // a second client asked for the address that is on offer to the first
 		{d1, r1, find("tick", 0, "")},          // a lease that has expired
 		{d1, find("discover", 1, "other"), r2}, // the address on offer to the first client was acknowledged to the second
-		{d1, find("tick", 0, ""), find("discover", 1, "other"), r2}, // same, after the first client's offer ran out
-		{d1, r1, tick2h, tickMin},                                   // a bound client that was silent for two hours: the session has purged its host entry
-		{d1, r1, tick2h, find("request", 0, "renew")},               // a lease renewed half way through its life time
-		{find("capture", 0, ""), d1, r1, tick2h, tickMin},           // a captured client bound in the netfilter subnet whose session entry was purged
+		{d1, find("tick", 0, ""), find("discover", 1, "other"), r2},    // same, after the first client's offer ran out
+		{d1, r1, tick2h, tickMin},                                      // a bound client that was silent for two hours: the session has purged its host entry
+		{d1, r1, tick2h, find("request", 0, "renew")},                  // a lease renewed half way through its life time
+		{find("capture", 0, ""), d1, r1, tick2h, tickMin},              // a captured client bound in the netfilter subnet whose session entry was purged
+		{find("capture", 0, ""), d1, find("discover", 1, "other"), r1}, // a captured client acknowledged the address that is also on offer to a client of the home subnet
 	}
 }
 
